@@ -130,12 +130,13 @@ INPUT_OPS = ("cn_peer", "cn_eof", "cn_rderr", "cn_wrerr", "cn_budget", "cn_iws",
 
 
 # operations on the handles of a stream (the ping handle is not one: it reports BrokenPipe by design)
-STREAM_HANDLE_OPS = ("cn_resp", "cn_read", "cn_rtrailers", "cn_pollcap", "cn_pollreset", "cn_info", "cn_data")
-AFTER_END_OPS = ("cn_resp", "cn_read", "cn_rtrailers", "cn_pollcap", "cn_pollreset", "cn_ready", "cn_pollpong", "cn_info")
+STREAM_HANDLE_OPS = ("cn_resp", "cn_read", "cn_rtrailers", "cn_pollcap", "cn_pollreset", "cn_info", "cn_data", "cn_pollpushed")
+AFTER_END_OPS = ("cn_resp", "cn_read", "cn_rtrailers", "cn_pollcap", "cn_pollreset", "cn_ready", "cn_pollpong", "cn_info", "cn_pollpushed")
 
 
 # the waker slot (digest flag) each pollable handle operation parks its task in
-PENDING_SLOT = {"cn_pollcap": "t", "cn_pollreset": "t", "cn_resp": "u", "cn_read": "u", "cn_rtrailers": "u", "cn_info": "u"}
+PENDING_SLOT = {"cn_pollcap": "t", "cn_pollreset": "t", "cn_resp": "u", "cn_read": "u", "cn_rtrailers": "u", "cn_info": "u",
+                "cn_pollpushed": "q"}
 
 
 def mon_conn(ops, impl):
@@ -292,6 +293,15 @@ def mon_conn(ops, impl):
             last_st_before = st
         if st not in ("-", "gone", ""):
             out.append((i, f"mon_st {role} {reset_max} {st}"))
+            # C06: a task parked in poll_pushed waits for "a push or the end of the stream": it is not parked any more
+            # once the receive side has ended
+            for seg in st.split("|"):
+                if seg.startswith("S") and not seg.startswith("SB:"):
+                    f = seg.split(":", 1)[1].split(",")
+                    # (a waker left behind by a handle that is gone — no reference to the stream is left — waits for nothing)
+                    if "q" in f[-1] and (f[0].startswith("Closed") or f[0].startswith("HalfClosedRemote")) \
+                            and len(f) > 8 and f[8].isdigit() and int(f[8]) > 0:
+                        out.append((i, f"mon_cn parkedpush {f[0]}"))
         if w[0] == "cn_peer":
             rx = _f(a, "rx=")
             cbh = _f(a, "cbh=")
@@ -301,7 +311,7 @@ def mon_conn(ops, impl):
             if rx != "-":
                 for f in rx.split(";"):
                     out.append((i, "mon_cn rx " + f))
-        if w[0] in ("cn_req", "cn_reqc", "cn_accept") and r.startswith("ok:"):
+        if w[0] in ("cn_req", "cn_reqc", "cn_accept", "cn_pollpushed") and r.startswith("ok:"):
             p = r.split(":")
             slots.append(int(p[2]))
             if w[0] == "cn_accept":
@@ -709,7 +719,7 @@ PROPS["C01"].update({
 # reports a stable green build (files still being worked on must not be able to break a registered check):
 # candidates: ("C01", "C01Streams"), ("C08", "C08NoPanic"), ("C06", "C06Drain"), ("C15", "C15Cover"),
 #             ("C16", "C16Cover"), ("C09", "C09Cover"), ("C03", "C03Cover")
-REGISTERED_EXTRAS = [("C01", "C01Streams"), ("C08", "C08NoPanic"), ("C15", "C15Cover"), ("C06", "C06Drain"), ("C09", "C09Cover"), ("C03", "C03Cover")]
+REGISTERED_EXTRAS = [("C01", "C01Streams"), ("C08", "C08NoPanic"), ("C15", "C15Cover"), ("C06", "C06Drain"), ("C09", "C09Cover"), ("C03", "C03Cover"), ("C16", "C16Cover")]
 for _pid, _extra in REGISTERED_EXTRAS:
     if _load_theorems(_extra):
         PROPS[_pid]["theorems"] = PROPS[_pid]["theorems"] + _load_theorems(_extra)
